@@ -344,14 +344,14 @@ theorem shape_of_scanMM {u : List Char} {sg : Bool} {n k j : Nat} (h : scanMM u 
 /-! ### the `max_memory` string parser against the scanner -/
 
 /-- no unit: no multiplication -/
-theorem mulUnit_zero (oc : Bool) {n : Nat} (h : n < usizeBound) : mulUnit oc n 0 = .ok n := by
+theorem mulUnit_zero {n : Nat} (h : n < usizeBound) : mulUnit n 0 = .ok (some n) := by
   simp [mulUnit, h]
 
 /-- the parser on `[+] ds` -/
-theorem parseMaxMemoryUpper_plain (oc : Bool) (sg : Bool) {ds : List Char} (hne : ds ≠ [])
+theorem parseMaxMemoryUpper_plain (sg : Bool) {ds : List Char} (hne : ds ≠ [])
     (hall : ds.all Char.isDigit = true) :
-    parseMaxMemoryUpper oc (signL sg ++ ds) =
-      if decVal ds < usizeBound then .ok (.ok (some (decVal ds))) else .ok (.compileError .mmFormat) := by
+    parseMaxMemoryUpper (signL sg ++ ds) =
+      if decVal ds < usizeBound then .ok (some (decVal ds)) else .compileError .mmFormat := by
   obtain ⟨init, d, hds, hd⟩ := exists_last_digit hne hall
   have he : ∀ a, endsWith2 a 'B' (signL sg ++ ds) = false := by
     intro a; rw [hds, ← List.append_assoc]; exact endsWith2_of_last_digit hd
@@ -361,11 +361,10 @@ theorem parseMaxMemoryUpper_plain (oc : Bool) (sg : Bool) {ds : List Char} (hne 
   by_cases hlt : decVal ds < usizeBound <;> simp [hlt]
 
 /-- a unit branch of the parser on `[+] ds (aB)^j` -/
-theorem mmWithUnit_shape (oc : Bool) (sg : Bool) {ds : List Char} (hne : ds ≠ [])
+theorem mmWithUnit_shape (sg : Bool) {ds : List Char} (hne : ds ≠ [])
     (hall : ds.all Char.isDigit = true) (a : Char) (k j : Nat) :
-    mmWithUnit oc (signL sg ++ ds ++ reps a j) a k =
-      if decVal ds < usizeBound then (mulUnit oc (decVal ds) k).map (fun b => .ok (some b))
-      else .ok (.compileError .mmNumber) := by
+    mmWithUnit (signL sg ++ ds ++ reps a j) a k =
+      if decVal ds < usizeBound then mulUnit (decVal ds) k else .compileError .mmNumber := by
   obtain ⟨init, d, hds, hd⟩ := exists_last_digit hne hall
   have hnh : noUnitHead a (signL sg ++ ds).reverse := by
     rw [hds, ← List.append_assoc]; exact noUnitHead_of_last_digit hd
@@ -374,62 +373,61 @@ theorem mmWithUnit_shape (oc : Bool) (sg : Bool) {ds : List Char} (hne : ds ≠ 
   by_cases hlt : decVal ds < usizeBound <;> simp [hlt]
 
 /-- the parser on `[+] ds (cB)^(j+1)` -/
-theorem parseMaxMemoryUpper_unit (oc : Bool) (sg : Bool) {ds : List Char} (hne : ds ≠ [])
+theorem parseMaxMemoryUpper_unit (sg : Bool) {ds : List Char} (hne : ds ≠ [])
     (hall : ds.all Char.isDigit = true) {k : Nat} (hk : k = 1 ∨ k = 2 ∨ k = 3) (j : Nat) :
-    parseMaxMemoryUpper oc (signL sg ++ ds ++ reps (unitChar k) (j + 1)) =
-      if decVal ds < usizeBound then (mulUnit oc (decVal ds) k).map (fun b => .ok (some b))
-      else .ok (.compileError .mmNumber) := by
+    parseMaxMemoryUpper (signL sg ++ ds ++ reps (unitChar k) (j + 1)) =
+      if decVal ds < usizeBound then mulUnit (decVal ds) k else .compileError .mmNumber := by
   unfold parseMaxMemoryUpper
   rw [endsWith2_shape_succ, endsWith2_shape_succ, endsWith2_shape_succ]
   rcases hk with h | h | h <;> subst h
   · rw [show unitChar 1 = 'K' from rfl, show ('K' == 'G') = false from by decide,
       show ('K' == 'M') = false from by decide, show ('K' == 'K') = true from by decide]
     simp only [Bool.false_eq_true, if_false, if_true]
-    exact mmWithUnit_shape oc sg hne hall 'K' 1 (j + 1)
+    exact mmWithUnit_shape sg hne hall 'K' 1 (j + 1)
   · rw [show unitChar 2 = 'M' from rfl, show ('M' == 'G') = false from by decide,
       show ('M' == 'M') = true from by decide]
     simp only [Bool.false_eq_true, if_false, if_true]
-    exact mmWithUnit_shape oc sg hne hall 'M' 2 (j + 1)
+    exact mmWithUnit_shape sg hne hall 'M' 2 (j + 1)
   · rw [show unitChar 3 = 'G' from rfl, show ('G' == 'G') = true from by decide]
     simp only [if_true]
-    exact mmWithUnit_shape oc sg hne hall 'G' 3 (j + 1)
+    exact mmWithUnit_shape sg hne hall 'G' 3 (j + 1)
 
 /-- **Accepted forms.**  A string the scanner reads as `[+] n (unit)^j` with `n < 2^64` is parsed to
-    `n · 1024^k` (one factor per unit KIND, whatever the number of repetitions), subject to `mulUnit`. -/
-theorem parseMaxMemoryUpper_of_scan (oc : Bool) {u : List Char} {sg : Bool} {n k j : Nat}
+    `n · 1024^k` (one factor per unit KIND, whatever the number of repetitions) by `checked_mul`: `mulUnit`. -/
+theorem parseMaxMemoryUpper_of_scan {u : List Char} {sg : Bool} {n k j : Nat}
     (h : scanMM u = some (sg, n, k, j)) (hn : n < usizeBound) :
-    parseMaxMemoryUpper oc u = (mulUnit oc n k).map (fun b => .ok (some b)) := by
+    parseMaxMemoryUpper u = mulUnit n k := by
   obtain ⟨ds, hu, hne, hall, hval, hkj⟩ := shape_of_scanMM h
   subst hval
   rcases hkj with ⟨hk, hj⟩ | ⟨hk, hj⟩
   · subst hk; subst hj
     simp only [reps, List.append_nil] at hu
-    rw [hu, parseMaxMemoryUpper_plain oc sg hne hall, mulUnit_zero oc hn]
-    simp [hn]; rfl
+    rw [hu, parseMaxMemoryUpper_plain sg hne hall, mulUnit_zero hn]
+    simp [hn]
   · obtain ⟨j', rfl⟩ : ∃ j', j = j' + 1 := ⟨j - 1, by omega⟩
-    rw [hu, parseMaxMemoryUpper_unit oc sg hne hall hk j']
+    rw [hu, parseMaxMemoryUpper_unit sg hne hall hk j']
     simp [hn]
 
-/-- a number that does not fit in `usize` is refused (spliced `compile_error!`) -/
-theorem parseMaxMemoryUpper_of_scan_big (oc : Bool) {u : List Char} {sg : Bool} {n k j : Nat}
+/-- a number that does not fit in `usize` is refused (`compile_error!` tokens) -/
+theorem parseMaxMemoryUpper_of_scan_big {u : List Char} {sg : Bool} {n k j : Nat}
     (h : scanMM u = some (sg, n, k, j)) (hn : usizeBound ≤ n) :
-    ∃ e, parseMaxMemoryUpper oc u = .ok (.compileError e) := by
+    ∃ e, parseMaxMemoryUpper u = .compileError e := by
   obtain ⟨ds, hu, hne, hall, hval, hkj⟩ := shape_of_scanMM h
   subst hval
   have hn' : ¬ decVal ds < usizeBound := by omega
   rcases hkj with ⟨hk, hj⟩ | ⟨hk, hj⟩
   · subst hk; subst hj
     simp only [reps, List.append_nil] at hu
-    rw [hu, parseMaxMemoryUpper_plain oc sg hne hall]
+    rw [hu, parseMaxMemoryUpper_plain sg hne hall]
     exact ⟨.mmFormat, by simp [hn']⟩
   · obtain ⟨j', rfl⟩ : ∃ j', j = j' + 1 := ⟨j - 1, by omega⟩
-    rw [hu, parseMaxMemoryUpper_unit oc sg hne hall hk j']
+    rw [hu, parseMaxMemoryUpper_unit sg hne hall hk j']
     exact ⟨.mmNumber, by simp [hn']⟩
 
 /-- a unit branch of the parser refuses whatever the scanner cannot read -/
-theorem mmWithUnit_of_scan_none (oc : Bool) {u : List Char} (h : scanMM u = none) {a : Char}
+theorem mmWithUnit_of_scan_none {u : List Char} (h : scanMM u = none) {a : Char}
     (ha : a = 'K' ∨ a = 'M' ∨ a = 'G') (k : Nat) :
-    mmWithUnit oc u a k = .ok (.compileError .mmNumber) := by
+    mmWithUnit u a k = .compileError .mmNumber := by
   unfold mmWithUnit
   cases hp : parseUsize (trimEndMatches2 a 'B' u) with
   | none => rfl
@@ -441,16 +439,16 @@ theorem mmWithUnit_of_scan_none (oc : Bool) {u : List Char} (h : scanMM u = none
     rw [← hs, ← hj, h] at this
     simp at this
 
-/-- **Everything else is refused**: a string the scanner cannot read yields spliced `compile_error!` tokens. -/
-theorem parseMaxMemoryUpper_of_scan_none (oc : Bool) {u : List Char} (h : scanMM u = none) :
-    ∃ e, parseMaxMemoryUpper oc u = .ok (.compileError e) := by
+/-- **Everything else is refused**: a string the scanner cannot read yields `compile_error!` tokens. -/
+theorem parseMaxMemoryUpper_of_scan_none {u : List Char} (h : scanMM u = none) :
+    ∃ e, parseMaxMemoryUpper u = .compileError e := by
   unfold parseMaxMemoryUpper
   split
-  · exact ⟨_, mmWithUnit_of_scan_none oc h (Or.inr (Or.inr rfl)) 3⟩
+  · exact ⟨_, mmWithUnit_of_scan_none h (Or.inr (Or.inr rfl)) 3⟩
   · split
-    · exact ⟨_, mmWithUnit_of_scan_none oc h (Or.inr (Or.inl rfl)) 2⟩
+    · exact ⟨_, mmWithUnit_of_scan_none h (Or.inr (Or.inl rfl)) 2⟩
     · split
-      · exact ⟨_, mmWithUnit_of_scan_none oc h (Or.inl rfl) 1⟩
+      · exact ⟨_, mmWithUnit_of_scan_none h (Or.inl rfl) 1⟩
       · cases hp : parseUsize u with
         | none => exact ⟨_, rfl⟩
         | some n =>
@@ -537,17 +535,22 @@ theorem parsePathAttr_of_valid (msg : String) {v : AttrVal} (h : isPath v = true
   cases v <;> simp [isPath] at h
   exact ⟨_, rfl, rfl⟩
 
-/-- a product that fits in `usize` is computed exactly, with or without overflow checks -/
-theorem mulUnit_of_lt (oc : Bool) {n k : Nat} (h : n * 1024 ^ k < usizeBound) : mulUnit oc n k = .ok (n * 1024 ^ k) := by
+/-- a product that fits in `usize` is computed exactly -/
+theorem mulUnit_of_lt {n k : Nat} (h : n * 1024 ^ k < usizeBound) : mulUnit n k = .ok (some (n * 1024 ^ k)) := by
   simp [mulUnit, h]
+
+/-- a product that does not fit is refused -/
+theorem mulUnit_of_ge {n k : Nat} (h : usizeBound ≤ n * 1024 ^ k) : mulUnit n k = .compileError .mmTooLarge := by
+  have : ¬ n * 1024 ^ k < usizeBound := Nat.not_lt.mpr h
+  simp [mulUnit, this]
 
 /-- multiplying by a power of 1024 does not decrease -/
 theorem le_mul_pow (n k : Nat) : n ≤ n * 1024 ^ k :=
   Nat.le_mul_of_pos_right n (Nat.pow_pos (by decide))
 
 /-- a documented `max_memory` string is parsed to the number of bytes it denotes -/
-theorem parseMaxMemoryStr_of_strict (oc : Bool) {s : String} {b : Nat} (h : mmStrict s = some b) :
-    parseMaxMemoryStr oc s.toList = .ok (.ok (some b)) := by
+theorem parseMaxMemoryStr_of_strict {s : String} {b : Nat} (h : mmStrict s = some b) :
+    parseMaxMemoryStr s.toList = .ok (some b) := by
   unfold mmStrict at h
   split at h
   · rename_i n k j hscan
@@ -557,14 +560,13 @@ theorem parseMaxMemoryStr_of_strict (oc : Bool) {s : String} {b : Nat} (h : mmSt
       subst h
       have hn : n < usizeBound := Nat.lt_of_le_of_lt (le_mul_pow n k) hc.2
       unfold parseMaxMemoryStr
-      rw [parseMaxMemoryUpper_of_scan oc hscan hn, mulUnit_of_lt oc hc.2]
-      rfl
+      rw [parseMaxMemoryUpper_of_scan hscan hn, mulUnit_of_lt hc.2]
     · simp at h
   · simp at h
 
 /-- a valid `max_memory` (documented string form or integer literal) is parsed to the bytes it denotes -/
-theorem parseMaxMemory_of_valid (oc : Bool) {v : AttrVal} (h : validMaxMemory v = true) :
-    parseMaxMemory oc v = .ok (.ok (memOf (some v))) := by
+theorem parseMaxMemory_of_valid {v : AttrVal} (h : validMaxMemory v = true) :
+    parseMaxMemory v = .ok (.ok (memOf (some v))) := by
   cases v <;> simp [validMaxMemory] at h
   · rename_i neg val suf
     cases neg <;> simp [validMaxMemory] at h
@@ -572,7 +574,7 @@ theorem parseMaxMemory_of_valid (oc : Bool) {v : AttrVal} (h : validMaxMemory v 
   · rename_i s
     cases hb : mmStrict s with
     | none => simp [hb] at h
-    | some b => simp [parseMaxMemory, memOf, hb, parseMaxMemoryStr_of_strict oc hb]
+    | some b => simp [parseMaxMemory, memOf, hb, parseMaxMemoryStr_of_strict hb]
 
 /-- a valid `frequency_weight` is parsed to the `f64` nearest to the written number -/
 theorem parseFrequencyWeight_of_valid {v : AttrVal} (h : validFrequencyWeight v = true) :
@@ -592,20 +594,20 @@ theorem parseFrequencyWeight_of_valid {v : AttrVal} (h : validFrequencyWeight v 
 
 /-- Processing a valid attribute in the state that carries the meaning of the attributes before it yields the
     state that carries the meaning of the list extended by that attribute. -/
-theorem stepAttr_meaning (k : Kind) (oc : Bool) (p : AttrList) {n : String} {v : AttrVal}
+theorem stepAttr_meaning (k : Kind) (p : AttrList) {n : String} {v : AttrVal}
     (h : validAttr k n v = true) :
-    stepAttr k oc (meaning k p).toParsed n v = .ok (meaning k (p ++ [(n, v)])).toParsed := by
+    stepAttr k (meaning k p).toParsed n v = .ok (meaning k (p ++ [(n, v)])).toParsed := by
   unfold validAttr at h
   split at h
   · subst n
-    simp [stepAttr, meaning, Meaning.toParsed, lastVal_snoc, parseLimit_of_valid h]
+    simp [stepAttr, meaning, Meaning.toParsed, lastVal_snoc, parseLimit_of_valid h, liftValue]
   split at h
   · subst n
     obtain ⟨s, rfl, hs, hp⟩ := parsePolicy_of_valid h
     simp [stepAttr, meaning, Meaning.toParsed, lastVal_snoc, hp, liftErr, strOf, policyName_policyOfName hs]
   split at h
   · subst n
-    simp [stepAttr, meaning, Meaning.toParsed, lastVal_snoc, parseTtl_of_valid h, liftPanic]
+    simp [stepAttr, meaning, Meaning.toParsed, lastVal_snoc, parseTtl_of_valid h, liftValue]
   split at h
   · subst n
     simp only [Bool.and_eq_true, decide_eq_true_eq] at h
@@ -618,7 +620,7 @@ theorem stepAttr_meaning (k : Kind) (oc : Bool) (p : AttrList) {n : String} {v :
     simp [stepAttr, meaning, Meaning.toParsed, lastVal_snoc, parseName_of_valid h]
   split at h
   · subst n
-    simp [stepAttr, meaning, Meaning.toParsed, lastVal_snoc, parseMaxMemory_of_valid oc h, liftPanic]
+    simp [stepAttr, meaning, Meaning.toParsed, lastVal_snoc, parseMaxMemory_of_valid h, liftValue]
   split at h
   · rename_i hn
     rcases hn with rfl | rfl | rfl <;>
@@ -632,7 +634,7 @@ theorem stepAttr_meaning (k : Kind) (oc : Bool) (p : AttrList) {n : String} {v :
       simp [stepAttr, meaning, Meaning.toParsed, lastVal_snoc, hp, liftErr, pathOf]
   split at h
   · subst n
-    simp [stepAttr, meaning, Meaning.toParsed, lastVal_snoc, parseFrequencyWeight_of_valid h, liftPanic]
+    simp [stepAttr, meaning, Meaning.toParsed, lastVal_snoc, parseFrequencyWeight_of_valid h, liftValue]
   · simp at h
 
 /-- the meaning of the empty list is `Default::default()` -/
@@ -640,26 +642,26 @@ theorem meaning_nil (k : Kind) : (meaning k []).toParsed = Parsed.default := by
   cases k <;> rfl
 
 /-- the loop from the state that carries the meaning of `p`, over a valid remainder -/
-theorem parseLoop_meaning (k : Kind) (oc : Bool) : ∀ (rest p : AttrList), Valid k rest →
-    parseLoop k oc (meaning k p).toParsed rest = .ok (meaning k (p ++ rest)).toParsed
+theorem parseLoop_meaning (k : Kind) : ∀ (rest p : AttrList), Valid k rest →
+    parseLoop k (meaning k p).toParsed rest = .ok (meaning k (p ++ rest)).toParsed
   | [], p, _ => by simp [parseLoop]
   | (n, v) :: rest, p, h => by
     have hv : validAttr k n v = true := h (n, v) (List.mem_cons_self)
     have hr : Valid k rest := fun a ha => h a (List.mem_cons_of_mem _ ha)
-    simp only [parseLoop, stepAttr_meaning k oc p hv]
-    rw [parseLoop_meaning k oc rest (p ++ [(n, v)]) hr]
+    simp only [parseLoop, stepAttr_meaning k p hv]
+    rw [parseLoop_meaning k rest (p ++ [(n, v)]) hr]
     simp
 
 /-! ### rejections -/
 
 /-- an attribute on which an iteration fails in EVERY state makes the whole parse fail, wherever it stands -/
-theorem parseLoop_error_of_mem (k : Kind) (oc : Bool) {n : String} {v : AttrVal}
-    (hstep : ∀ st, ∃ e, stepAttr k oc st n v = .error e) :
-    ∀ (l : AttrList) (st : Parsed), (n, v) ∈ l → ∃ e, parseLoop k oc st l = .error e
+theorem parseLoop_error_of_mem (k : Kind) {n : String} {v : AttrVal}
+    (hstep : ∀ st, ∃ e, stepAttr k st n v = .error e) :
+    ∀ (l : AttrList) (st : Parsed), (n, v) ∈ l → ∃ e, parseLoop k st l = .error e
   | [], _, h => by simp at h
   | (n', v') :: rest, st, h => by
     simp only [parseLoop]
-    cases hs : stepAttr k oc st n' v' with
+    cases hs : stepAttr k st n' v' with
     | error e => exact ⟨e, rfl⟩
     | ok st' =>
       rcases List.mem_cons.mp h with heq | hmem
@@ -667,22 +669,22 @@ theorem parseLoop_error_of_mem (k : Kind) (oc : Bool) {n : String} {v : AttrVal}
         have : n' = n ∧ v' = v := by cases heq; exact ⟨rfl, rfl⟩
         rw [this.1, this.2, he] at hs
         cases hs
-      · exact parseLoop_error_of_mem k oc hstep rest st' hmem
+      · exact parseLoop_error_of_mem k hstep rest st' hmem
 
 /-- an unknown name makes the iteration return `Err("Unknown attribute …")` in every state -/
-theorem stepAttr_unknown (k : Kind) (oc : Bool) (st : Parsed) {n : String} (v : AttrVal)
+theorem stepAttr_unknown (k : Kind) (st : Parsed) {n : String} (v : AttrVal)
     (h : (knownNames k).contains n = false) :
-    stepAttr k oc st n v = .error (.parserErr (msgUnknown k n)) := by
+    stepAttr k st n v = .error (.parserErr (msgUnknown k n)) := by
   cases k <;> simp [knownNames] at h <;> simp [stepAttr, h]
 
 /-- an invalid `policy` value makes the iteration return `Err` in every state -/
-theorem stepAttr_policy_invalid (k : Kind) (oc : Bool) (st : Parsed) {v : AttrVal} (h : validPolicy v = false) :
-    ∃ m, stepAttr k oc st "policy" v = .error (.parserErr m) := by
+theorem stepAttr_policy_invalid (k : Kind) (st : Parsed) {v : AttrVal} (h : validPolicy v = false) :
+    ∃ m, stepAttr k st "policy" v = .error (.parserErr m) := by
   cases v <;> simp [validPolicy] at h <;> simp [stepAttr, liftErr, parsePolicy, h]
 
 /-- an invalid `scope` value makes the iteration of `#[cache]` return `Err` in every state -/
-theorem stepAttr_scope_invalid (oc : Bool) (st : Parsed) {v : AttrVal} (h : validScope v = false) :
-    ∃ m, stepAttr .sync oc st "scope" v = .error (.parserErr m) := by
+theorem stepAttr_scope_invalid (st : Parsed) {v : AttrVal} (h : validScope v = false) :
+    ∃ m, stepAttr .sync st "scope" v = .error (.parserErr m) := by
   cases v <;> simp [validScope] at h <;> simp [stepAttr, liftErr, parseScope, h]
 
 /-! #### which value ends up in a field -/
@@ -694,30 +696,46 @@ theorem liftErr_ok {α : Type} {r : Except String α} {f : α → Parsed} {st' :
   | error m => simp [liftErr] at h
   | ok a => simp [liftErr] at h; exact ⟨a, rfl, h.symm⟩
 
-/-- inversion of `liftPanic` -/
-theorem liftPanic_ok {α : Type} {r : Except String α} {f : α → Parsed} {st' : Parsed}
-    (h : liftPanic r f = .ok st') : ∃ a, r = .ok a ∧ st' = f a := by
+/-- inversion of `liftValue`: only `None` / `Some(..)` tokens are ever stored -/
+theorem liftValue_ok {α : Type} {r : Except String (Spliced α)} {f : Spliced α → Parsed} {st' : Parsed}
+    (h : liftValue r f = .ok st') : ∃ o, r = .ok (.ok o) ∧ st' = f (.ok o) := by
   cases r with
-  | error m => simp [liftPanic] at h
-  | ok a => simp [liftPanic] at h; exact ⟨a, rfl, h.symm⟩
+  | error m => simp [liftValue] at h
+  | ok sp =>
+    cases sp with
+    | compileError e => simp [liftValue] at h
+    | ok o => simp [liftValue] at h; exact ⟨o, rfl, h.symm⟩
 
-/-- effect of one successful iteration on the four fields that can hold spliced `compile_error!` tokens -/
-theorem stepAttr_fields {k : Kind} {oc : Bool} {st st' : Parsed} {n : String} {v : AttrVal}
-    (h : stepAttr k oc st n v = .ok st') :
-    (st'.limit = if n = "limit" then parseLimit v else st.limit) ∧
-    (if n = "ttl" then parseTtl v = .ok st'.ttl else st'.ttl = st.ttl) ∧
-    (if n = "max_memory" then parseMaxMemory oc v = .ok st'.maxMemory else st'.maxMemory = st.maxMemory) ∧
-    (if n = "frequency_weight" then parseFrequencyWeight v = .ok st'.frequencyWeight
+/-- `reject_invalid`: a value parser that panics or produces `compile_error!` tokens makes the iteration fail -/
+theorem liftValue_error {α : Type} {r : Except String (Spliced α)} (f : Spliced α → Parsed)
+    (h : ∀ t, r = .ok t → t.isOk = false) : ∃ e, liftValue r f = .error e := by
+  cases r with
+  | error m => exact ⟨_, rfl⟩
+  | ok sp =>
+    cases sp with
+    | compileError e => exact ⟨_, rfl⟩
+    | ok o => have := h _ rfl; simp [Spliced.isOk] at this
+
+/-- effect of one successful iteration on the four fields filled by the value parsers: untouched, or set to
+    the `None` / `Some(..)` tokens its value parser produced -/
+theorem stepAttr_fields {k : Kind} {st st' : Parsed} {n : String} {v : AttrVal}
+    (h : stepAttr k st n v = .ok st') :
+    (if n = "limit" then parseLimit v = st'.limit ∧ st'.limit.isOk = true else st'.limit = st.limit) ∧
+    (if n = "ttl" then parseTtl v = .ok st'.ttl ∧ st'.ttl.isOk = true else st'.ttl = st.ttl) ∧
+    (if n = "max_memory" then parseMaxMemory v = .ok st'.maxMemory ∧ st'.maxMemory.isOk = true
+      else st'.maxMemory = st.maxMemory) ∧
+    (if n = "frequency_weight" then parseFrequencyWeight v = .ok st'.frequencyWeight ∧ st'.frequencyWeight.isOk = true
       else st'.frequencyWeight = st.frequencyWeight) := by
   unfold stepAttr at h
   by_cases h1 : n = "limit"
-  · subst h1; rw [if_pos rfl] at h; cases h; simp
+  · subst h1; rw [if_pos rfl] at h; obtain ⟨a, ha, rfl⟩ := liftValue_ok h
+    simp at ha; simp [ha, Spliced.isOk]
   rw [if_neg h1] at h
   by_cases h2 : n = "policy"
   · subst h2; rw [if_pos rfl] at h; obtain ⟨a, _, rfl⟩ := liftErr_ok h; simp
   rw [if_neg h2] at h
   by_cases h3 : n = "ttl"
-  · subst h3; rw [if_pos rfl] at h; obtain ⟨a, ha, rfl⟩ := liftPanic_ok h; simp [ha]
+  · subst h3; rw [if_pos rfl] at h; obtain ⟨a, ha, rfl⟩ := liftValue_ok h; simp [ha, Spliced.isOk]
   rw [if_neg h3] at h
   by_cases h4 : n = "scope" ∧ k = .sync
   · rw [if_pos h4] at h; obtain ⟨a, _, rfl⟩ := liftErr_ok h; simp [h4.1]
@@ -726,7 +744,7 @@ theorem stepAttr_fields {k : Kind} {oc : Bool} {st st' : Parsed} {n : String} {v
   · subst h5; rw [if_pos rfl] at h; cases h; simp
   rw [if_neg h5] at h
   by_cases h6 : n = "max_memory"
-  · subst h6; rw [if_pos rfl] at h; obtain ⟨a, ha, rfl⟩ := liftPanic_ok h; simp [ha]
+  · subst h6; rw [if_pos rfl] at h; obtain ⟨a, ha, rfl⟩ := liftValue_ok h; simp [ha, Spliced.isOk]
   rw [if_neg h6] at h
   by_cases h7 : n = "tags"
   · subst h7; rw [if_pos rfl] at h; obtain ⟨a, _, rfl⟩ := liftErr_ok h; simp
@@ -744,28 +762,28 @@ theorem stepAttr_fields {k : Kind} {oc : Bool} {st st' : Parsed} {n : String} {v
   · subst h11; rw [if_pos rfl] at h; obtain ⟨a, _, rfl⟩ := liftErr_ok h; simp
   rw [if_neg h11] at h
   by_cases h12 : n = "frequency_weight"
-  · subst h12; rw [if_pos rfl] at h; obtain ⟨a, ha, rfl⟩ := liftPanic_ok h; simp [ha]
+  · subst h12; rw [if_pos rfl] at h; obtain ⟨a, ha, rfl⟩ := liftValue_ok h; simp [ha, Spliced.isOk]
   rw [if_neg h12] at h
   cases h
 
 /-- a field that each iteration either leaves alone or sets from the value of attribute `name` ends up
     set from the LAST value written for `name` -/
-theorem parseLoop_field {β : Type} (k : Kind) (oc : Bool) (name : String) (get : Parsed → β)
+theorem parseLoop_field {β : Type} (k : Kind) (name : String) (get : Parsed → β)
     (ok : AttrVal → β → Prop)
-    (hstep : ∀ st st' n v, stepAttr k oc st n v = .ok st' →
+    (hstep : ∀ st st' n v, stepAttr k st n v = .ok st' →
       if n = name then ok v (get st') else get st' = get st) :
-    ∀ (l : AttrList) (st p : Parsed), parseLoop k oc st l = .ok p →
+    ∀ (l : AttrList) (st p : Parsed), parseLoop k st l = .ok p →
       match lastVal name l with
       | some v => ok v (get p)
       | none => get p = get st
   | [], st, p, h => by simp [parseLoop] at h; subst h; simp [lastVal]
   | (n, v) :: rest, st, p, h => by
     simp only [parseLoop] at h
-    cases hs : stepAttr k oc st n v with
+    cases hs : stepAttr k st n v with
     | error e => simp [hs] at h
     | ok st' =>
       simp only [hs] at h
-      have ih := parseLoop_field k oc name get ok hstep rest st' p h
+      have ih := parseLoop_field k name get ok hstep rest st' p h
       have hst := hstep st st' n v hs
       simp only [lastVal]
       cases hl : lastVal name rest with
@@ -777,44 +795,65 @@ theorem parseLoop_field {β : Type} (k : Kind) (oc : Bool) (name : String) (get 
         · simp only [hn, if_false] at hst ⊢; rw [ih]; exact hst
 
 /-- the `limit` field after the loop comes from the last `limit` written -/
-theorem parseLoop_limit {k : Kind} {oc : Bool} {l : AttrList} {st p : Parsed} (h : parseLoop k oc st l = .ok p) :
+theorem parseLoop_limit {k : Kind} {l : AttrList} {st p : Parsed} (h : parseLoop k st l = .ok p) :
     match lastVal "limit" l with
-    | some v => p.limit = parseLimit v
+    | some v => parseLimit v = p.limit ∧ p.limit.isOk = true
     | none => p.limit = st.limit :=
-  parseLoop_field k oc "limit" (·.limit) (fun v b => b = parseLimit v)
-    (fun st st' n v hs => by
-      have := (stepAttr_fields hs).1
-      by_cases hn : n = "limit" <;> simp [hn] at this ⊢ <;> exact this) l st p h
+  parseLoop_field k "limit" (·.limit) (fun v b => parseLimit v = b ∧ b.isOk = true)
+    (fun st st' n v hs => (stepAttr_fields hs).1) l st p h
 
 /-- the `ttl` field after the loop comes from the last `ttl` written -/
-theorem parseLoop_ttl {k : Kind} {oc : Bool} {l : AttrList} {st p : Parsed} (h : parseLoop k oc st l = .ok p) :
+theorem parseLoop_ttl {k : Kind} {l : AttrList} {st p : Parsed} (h : parseLoop k st l = .ok p) :
     match lastVal "ttl" l with
-    | some v => parseTtl v = .ok p.ttl
+    | some v => parseTtl v = .ok p.ttl ∧ p.ttl.isOk = true
     | none => p.ttl = st.ttl :=
-  parseLoop_field k oc "ttl" (·.ttl) (fun v b => parseTtl v = .ok b)
+  parseLoop_field k "ttl" (·.ttl) (fun v b => parseTtl v = .ok b ∧ b.isOk = true)
     (fun st st' n v hs => (stepAttr_fields hs).2.1) l st p h
 
 /-- the `max_memory` field after the loop comes from the last `max_memory` written -/
-theorem parseLoop_maxMemory {k : Kind} {oc : Bool} {l : AttrList} {st p : Parsed}
-    (h : parseLoop k oc st l = .ok p) :
+theorem parseLoop_maxMemory {k : Kind} {l : AttrList} {st p : Parsed}
+    (h : parseLoop k st l = .ok p) :
     match lastVal "max_memory" l with
-    | some v => parseMaxMemory oc v = .ok p.maxMemory
+    | some v => parseMaxMemory v = .ok p.maxMemory ∧ p.maxMemory.isOk = true
     | none => p.maxMemory = st.maxMemory :=
-  parseLoop_field k oc "max_memory" (·.maxMemory) (fun v b => parseMaxMemory oc v = .ok b)
+  parseLoop_field k "max_memory" (·.maxMemory) (fun v b => parseMaxMemory v = .ok b ∧ b.isOk = true)
     (fun st st' n v hs => (stepAttr_fields hs).2.2.1) l st p h
 
 /-- the `frequency_weight` field after the loop comes from the last `frequency_weight` written -/
-theorem parseLoop_frequencyWeight {k : Kind} {oc : Bool} {l : AttrList} {st p : Parsed}
-    (h : parseLoop k oc st l = .ok p) :
+theorem parseLoop_frequencyWeight {k : Kind} {l : AttrList} {st p : Parsed}
+    (h : parseLoop k st l = .ok p) :
     match lastVal "frequency_weight" l with
-    | some v => parseFrequencyWeight v = .ok p.frequencyWeight
+    | some v => parseFrequencyWeight v = .ok p.frequencyWeight ∧ p.frequencyWeight.isOk = true
     | none => p.frequencyWeight = st.frequencyWeight :=
-  parseLoop_field k oc "frequency_weight" (·.frequencyWeight) (fun v b => parseFrequencyWeight v = .ok b)
+  parseLoop_field k "frequency_weight" (·.frequencyWeight)
+    (fun v b => parseFrequencyWeight v = .ok b ∧ b.isOk = true)
     (fun st st' n v hs => (stepAttr_fields hs).2.2.2) l st p h
 
-/-! #### invalid values of the spliced fields -/
+/-- **No spliced `compile_error!` survives** (commit 82aef8c): in an accepted result the four value fields
+    hold `None` / `Some(..)` tokens. -/
+theorem parse_ok_fields {k : Kind} {l : AttrList} {p : Parsed} (h : parse k l = .ok p) :
+    p.limit.isOk = true ∧ p.ttl.isOk = true ∧ p.maxMemory.isOk = true ∧ p.frequencyWeight.isOk = true := by
+  have h1 := parseLoop_limit (k := k) (l := l) (st := Parsed.default) (p := p) h
+  have h2 := parseLoop_ttl (k := k) (l := l) (st := Parsed.default) (p := p) h
+  have h3 := parseLoop_maxMemory (k := k) (l := l) (st := Parsed.default) (p := p) h
+  have h4 := parseLoop_frequencyWeight (k := k) (l := l) (st := Parsed.default) (p := p) h
+  refine ⟨?_, ?_, ?_, ?_⟩
+  · cases hl : lastVal "limit" l with
+    | none => simp only [hl] at h1; rw [h1]; rfl
+    | some v => simp only [hl] at h1; exact h1.2
+  · cases hl : lastVal "ttl" l with
+    | none => simp only [hl] at h2; rw [h2]; rfl
+    | some v => simp only [hl] at h2; exact h2.2
+  · cases hl : lastVal "max_memory" l with
+    | none => simp only [hl] at h3; rw [h3]; rfl
+    | some v => simp only [hl] at h3; exact h3.2
+  · cases hl : lastVal "frequency_weight" l with
+    | none => simp only [hl] at h4; rw [h4]; rfl
+    | some v => simp only [hl] at h4; exact h4.2
 
-/-- an invalid `limit` value yields spliced `compile_error!` tokens -/
+/-! #### invalid values: the iteration fails in every state -/
+
+/-- an invalid `limit` value yields `compile_error!` tokens -/
 theorem parseLimit_invalid {v : AttrVal} (h : validLimit v = false) : (parseLimit v).isOk = false := by
   cases v with
   | intLit neg val suf =>
@@ -825,7 +864,7 @@ theorem parseLimit_invalid {v : AttrVal} (h : validLimit v = false) : (parseLimi
     · simp [parseLimit, Spliced.isOk]
   | _ => simp [parseLimit, Spliced.isOk]
 
-/-- an invalid `ttl` value yields spliced `compile_error!` tokens (or panics) -/
+/-- an invalid `ttl` value yields `compile_error!` tokens (or panics) -/
 theorem parseTtl_invalid {v : AttrVal} (h : validTtl v = false) :
     ∀ t, parseTtl v = .ok t → t.isOk = false := by
   intro t ht
@@ -838,27 +877,28 @@ theorem parseTtl_invalid {v : AttrVal} (h : validTtl v = false) :
     · simp [parseTtl] at ht
   | _ => simp [parseTtl] at ht; subst ht; rfl
 
-/-- `max_memory`: whatever the scanner cannot read, and numbers that do not fit -/
-theorem parseMaxMemory_bad {oc : Bool} {v : AttrVal} (h : badMaxMemory v = true) (hoc : oc = true) :
-    ∀ t, parseMaxMemory oc v = .ok t → t.isOk = false := by
+/-- `max_memory`: whatever the scanner cannot read, numbers that do not fit before or after the
+    multiplication, negative or oversized integer literals, every other kind of expression -/
+theorem parseMaxMemory_bad {v : AttrVal} (h : badMaxMemory v = true) :
+    ∀ t, parseMaxMemory v = .ok t → t.isOk = false := by
   intro t ht
   cases v with
   | strLit s =>
     simp only [badMaxMemory, mmLenient] at h
     simp only [parseMaxMemory, parseMaxMemoryStr] at ht
+    have ht' := Except.ok.inj ht
     cases hscan : scanMM (s.toList.map Char.toUpper) with
     | none =>
-      obtain ⟨e, he⟩ := parseMaxMemoryUpper_of_scan_none oc hscan
-      rw [he] at ht; cases ht; rfl
+      obtain ⟨e, he⟩ := parseMaxMemoryUpper_of_scan_none hscan
+      rw [he] at ht'; rw [← ht']; rfl
     | some r =>
       obtain ⟨sg, n, k', j⟩ := r
       by_cases hn : n < usizeBound
       · simp [hscan, hn] at h
-        rw [parseMaxMemoryUpper_of_scan oc hscan hn] at ht
-        have : ¬ n * 1024 ^ k' < usizeBound := Nat.not_lt.mpr h
-        simp [mulUnit, this, hoc, Except.map] at ht
-      · obtain ⟨e, he⟩ := parseMaxMemoryUpper_of_scan_big oc hscan (by omega)
-        rw [he] at ht; cases ht; rfl
+        rw [parseMaxMemoryUpper_of_scan hscan hn, mulUnit_of_ge h] at ht'
+        rw [← ht']; rfl
+      · obtain ⟨e, he⟩ := parseMaxMemoryUpper_of_scan_big hscan (by omega)
+        rw [he] at ht'; rw [← ht']; rfl
   | intLit neg val suf =>
     cases neg
     · simp [badMaxMemory] at h
@@ -866,6 +906,52 @@ theorem parseMaxMemory_bad {oc : Bool} {v : AttrVal} (h : badMaxMemory v = true)
       simp [parseMaxMemory, this] at ht
     · simp [parseMaxMemory] at ht
   | _ => simp [parseMaxMemory] at ht; subst ht; rfl
+
+/-- `frequency_weight`: negative, zero or non-finite floats, negative or oversized integers, every other
+    kind of expression -/
+theorem parseFrequencyWeight_bad {v : AttrVal} (h : badFrequencyWeight v = true) :
+    ∀ t, parseFrequencyWeight v = .ok t → t.isOk = false := by
+  intro t ht
+  cases v with
+  | floatLit neg m e suf =>
+    cases neg
+    · simp only [badFrequencyWeight, Bool.false_or] at h
+      cases hr : roundDec m e with
+      | zero => simp [parseFrequencyWeight, hr] at ht; subst ht; rfl
+      | inf => simp [parseFrequencyWeight, hr] at ht
+      | finite x => simp [hr] at h
+    · simp [parseFrequencyWeight] at ht; subst ht; rfl
+  | intLit neg val suf =>
+    cases neg
+    · simp [badFrequencyWeight] at h
+      have : ¬ val < 2 ^ 64 := by omega
+      simp [parseFrequencyWeight, this] at ht
+    · simp [parseFrequencyWeight] at ht
+  | _ => simp [parseFrequencyWeight] at ht; subst ht; rfl
+
+/-- an invalid `limit` makes the iteration return `Err` in every state -/
+theorem stepAttr_limit_invalid (k : Kind) (st : Parsed) {v : AttrVal} (h : validLimit v = false) :
+    ∃ e, stepAttr k st "limit" v = .error e := by
+  simp only [stepAttr, if_true]
+  exact liftValue_error _ (fun t ht => by cases ht; exact parseLimit_invalid h)
+
+/-- an invalid `ttl` makes the iteration fail (`Err` or panic) in every state -/
+theorem stepAttr_ttl_invalid (k : Kind) (st : Parsed) {v : AttrVal} (h : validTtl v = false) :
+    ∃ e, stepAttr k st "ttl" v = .error e := by
+  simp only [stepAttr, String.reduceEq, if_false, if_true]
+  exact liftValue_error _ (parseTtl_invalid h)
+
+/-- an invalid `max_memory` makes the iteration fail in every state -/
+theorem stepAttr_maxMemory_invalid (k : Kind) (st : Parsed) {v : AttrVal} (h : badMaxMemory v = true) :
+    ∃ e, stepAttr k st "max_memory" v = .error e := by
+  simp only [stepAttr, String.reduceEq, if_false, if_true, false_and]
+  exact liftValue_error _ (parseMaxMemory_bad h)
+
+/-- an invalid `frequency_weight` makes the iteration fail in every state -/
+theorem stepAttr_frequencyWeight_invalid (k : Kind) (st : Parsed) {v : AttrVal} (h : badFrequencyWeight v = true) :
+    ∃ e, stepAttr k st "frequency_weight" v = .error e := by
+  simp only [stepAttr, String.reduceEq, if_false, if_true, false_and]
+  exact liftValue_error _ (parseFrequencyWeight_bad h)
 
 /-! ### the textual `None` test -/
 
